@@ -6,6 +6,9 @@ import DimodProofs.LegacyProofs
 import DimodModel.HeaderDicts
 import DimodProofs.FileIO
 import DimodProofs.JsonContracts
+import DimodProofs.HeaderContracts
+import DimodProofs.ZipEnd
+import DimodProofs.CqmDirs
 
 /-! # C09 — binary model files load back as the identical model
 
@@ -360,6 +363,133 @@ theorem bqm_file_roundtrip_json (maj : UInt8) (ignore : Bool) (vartype dsz isz :
       .ok (bqmResult maj (bqmHeaderOf maj.toNat ignore vartype dsz isz c labels) c (serializeLabels labels), []) := by
   obtain ⟨_, _, hc⟩ := Comp.bqm_json maj ignore vartype dsz isz c labels hmaj hd hi hv hl wf hlen hvlen
   simpa using hc.full []
+
+/-! ## round 6: expression / CQM / DQM headers without `HeaderOK`; constraint directories from the labels;
+    the archive located the way `zipfile` locates it; the DQM loader before and after the `np.load` repair -/
+
+/-- **`HeaderOK` holds for the three remaining header kinds**: the dictionaries `_cyExpression._into_file`,
+    `ConstrainedQuadraticModel.to_file` and `DiscreteQuadraticModel.to_file` build, written by the modelled
+    `json.dumps(…, sort_keys=True)`, are ASCII, parse back through the modelled `json.loads` and the loaders'
+    field extraction to exactly the header the loader uses, no proper prefix parses, and the keys are in
+    sorted order.  Every theorem above that assumes `HeaderOK parse hdrText h` is thereby hypothesis-free in
+    its header for the texts the writers emit (only a size bound `< 2^32` remains). -/
+theorem header_texts_ok (typeName : String) (dsz isz : Nat) (e : ExprContent) (k : CqmCounts) (q : DqmCounts) (variables : Bool)
+    (hd : dsz = 4 ∨ dsz = 8) (hi : isz = 4 ∨ isz = 8)
+    (h1 : (dumpsDict (exprDict (exprHeaderDict typeName dsz isz e))).length + 65 < 2 ^ 32)
+    (h2 : (dumpsDict (cqmCountsDict k)).length + 65 < 2 ^ 32)
+    (h3 : (dumpsDict (dqmCountsDict q variables)).length + 65 < 2 ^ 32) :
+    HeaderOK parseExprHeader (exprHeaderText typeName dsz isz e) (exprHeaderOf dsz isz e) ∧
+    HeaderOK parseCqmHeader (cqmHeaderText k) k ∧
+    HeaderOK parseDqmHeader (dqmHeaderText q variables) (variables, dqmCountsDict q variables) ∧
+    keysSorted (exprDict (exprHeaderDict typeName dsz isz e)) = true ∧ keysSorted (cqmCountsDict k) = true ∧
+    keysSorted (dqmCountsDict q variables) = true :=
+  ⟨expr_header_ok typeName dsz isz e hd hi h1, cqm_header_ok k h2, dqm_header_ok q variables h3,
+   (keysSorted_count_dicts k q variables _).2.2, (keysSorted_count_dicts k q variables (exprHeaderDict typeName dsz isz e)).1,
+   (keysSorted_count_dicts k q variables (exprHeaderDict typeName dsz isz e)).2.1⟩
+
+/-- **expression files end to end with no JSON oracle** (the `objective` and `constraints/*/lhs` members) -/
+theorem expr_roundtrip_json (typeName : String) (dsz isz : Nat) (e : ExprContent) (hd : dsz = 4 ∨ dsz = 8) (hi : isz = 4 ∨ isz = 8)
+    (wf : ExprWF (exprHeaderOf dsz isz e) e)
+    (hlen : (dumpsDict (exprDict (exprHeaderDict typeName dsz isz e))).length + 65 < 2 ^ 32) :
+    (exprDecode true parseExprHeader).run (exprEncode (exprHeaderText typeName dsz isz e) isz e) =
+      .ok ((exprHeaderOf dsz isz e, e), []) :=
+  expr_roundtrip parseExprHeader (exprHeaderText typeName dsz isz e) (exprHeaderOf dsz isz e) e
+    (expr_header_ok typeName dsz isz e hd hi hlen) wf
+
+/-- **constraint directories from the labels**: for pairwise different constraint labels (floats in
+    `repr` form) the directory names `to_file` writes — `json.dumps(serialize_variable(label))` with `/`
+    escaped — are free of `/`, non-empty and pairwise different (`CqmWF.dirs`), `json.loads` accepts
+    them (`okLabel`), and `deserialize_variable(json.loads(name))` is the label again; so the labels
+    `from_file` attaches to the constraints are the original ones. -/
+theorem cqm_dirs_from_labels (ls : List FLabel) (hok : ∀ l ∈ ls, JOK (serializeLabel l)) (hnd : ls.Nodup) :
+    (∀ d ∈ ls.map (labelText true), pathSafe d ∧ d ≠ []) ∧ (ls.map (labelText true)).Nodup ∧
+    (∀ l ∈ ls, (loadsJ (labelText true l)).isSome = true ∧ dirLabel (labelText true l) = some l) :=
+  dirs_of_labels ls hok hnd
+
+/-- **CQM files, the archive located as `zipfile` locates it** (`_EndRecData` on the bytes of the whole
+    file), header text written by the model and parsed by the modelled `json.loads`.  What is assumed of
+    `zipfile` is one equation about the COMPLETE file: reading the central directory and the members of
+    the file `to_file` wrote (`x` = local entries + central directory, `e` = the 22-byte end record) gives
+    the members written — "member bytes in = member bytes out".  Member names, their order, the grouping
+    of `constraints/<label>/…` and everything `from_file` does with the members are the model's. -/
+theorem cqm_file_roundtrip_zip (readDir : EndRec → Bytes → Option Archive) (parse : Bytes → Option (QHeader J))
+    (okLabel : List Char → Bool) (isz dsz : Nat) (m : CqmContent) (x e : Bytes) (wf : CqmWF parse okLabel isz dsz m)
+    (hh : (dumpsDict (cqmCountsDict (cqmCounts m.erase))).length + 65 < 2 ^ 32)
+    (hlen : e.length = 22) (hsig : e.take 4 = sigEOCD) (hz : e.drop 20 = [0, 0])
+    (hdir : (EndRec.mk (makeHeader cqmPrefix 2 0 (cqmHeaderText (cqmCounts m.erase)) ++ x).length e).sizeCd ≤
+      (makeHeader cqmPrefix 2 0 (cqmHeaderText (cqmCounts m.erase)) ++ x).length)
+    (hread : readDir ⟨(makeHeader cqmPrefix 2 0 (cqmHeaderText (cqmCounts m.erase)) ++ x).length, e⟩
+      ((makeHeader cqmPrefix 2 0 (cqmHeaderText (cqmCounts m.erase)) ++ x) ++ e) = some (cqmMembers isz m)) :
+    cqmFileLoadW true dsz parseCqmHeader readDir parse okLabel
+      (makeHeader cqmPrefix 2 0 (cqmHeaderText (cqmCounts m.erase)) ++ (x ++ e)) = .ok m.erase := by
+  unfold cqmFileLoadW
+  have hopen : zipOpen readDir (makeHeader cqmPrefix 2 0 (cqmHeaderText (cqmCounts m.erase)) ++ (x ++ e)) = some (cqmMembers isz m) := by
+    rw [← List.append_assoc]
+    exact zipOpen_full readDir _ e _ hlen hsig hz hdir hread
+  rw [containerLoadW_full cqmPrefix _ (x ++ e) 2 0 parseCqmHeader _ cqmVerOk _ _ (cqm_header_ok _ hh) (by decide) hopen]
+  simp only [Res.bind, cqmDecodeChecked]
+  have hn : (cqmCounts m.erase).numVariables = m.varinfo.length := rfl
+  rw [hn, cqmDecode_members parse okLabel isz dsz m wf]
+  simp [Res.bind]
+
+/-- **DQM files end to end with no JSON oracle**: header dictionary and `VARS` text written by the model,
+    parsed by the modelled `json.loads`; `ignore_labels` and range labels give an index-labelled file. -/
+theorem dqm_file_roundtrip_json (openNpz : Bytes → Option (List NpyMember)) (npz : Bytes) (ignore : Bool) (c : DqmContent)
+    (labels : List FLabel) (hl : JOKs (serializeLabels labels)) (wf : DqmWF c)
+    (hz : ContainerContract openNpz npz (dqmMembers c)) (hsz : npz.length < 256 ^ 4) (hn : labels.length = c.caseStarts.length)
+    (hlen : (dumpsDict (dqmCountsDict (dqmCounts c) (dqmVariablesFlag ignore labels))).length + 65 < 2 ^ 32)
+    (hvlen : (dumpsJ (.arr (serializeLabels labels))).length + 64 < 256 ^ nlb4) :
+    (dqmDecode parseDqmHeader parseVarsReal
+        (fun blob => (openNpz blob).bind fun ms => match dqmFromMembers ms with | .ok d => some d | _ => none)
+        (fun d => d.caseStarts.length)).run
+      (dqmEncode (dqmHeaderText (dqmCounts c) (dqmVariablesFlag ignore labels)) (dqmVariablesFlag ignore labels) npz (varsTextOf labels)) =
+      .ok ((dqmCountsDict (dqmCounts c) (dqmVariablesFlag ignore labels), c,
+            if dqmVariablesFlag ignore labels then some (serializeLabels labels) else none), []) :=
+  dqm_file_roundtrip parseDqmHeader parseVarsReal openNpz _ npz (varsTextOf labels) _ _ c (serializeLabels labels)
+    (dqm_header_ok _ _ hlen) wf hz hsz (fun _ => ⟨VarsOK_real _ hl hvlen, by rw [serializeLabels_length, hn]⟩)
+
+/-- **the DQM loader that hands `np.load` the whole file (dimod before the D58 repair) cannot read back
+    long label lists**: for EVERY file `to_file` writes whose `VARS` section `v` (any trailing bytes in
+    which the end-record signature does not occur) is at least `65536 + 22` bytes long, `from_file` raises
+    `BadZipFile` on the complete file: `zipfile` looks for the end record in the last `65536 + 22` bytes of
+    the file, and those all belong to `v`. -/
+theorem dqm_whole_file_loader_rejects_long_vars (parse : Bytes → Option (Bool × H)) (parseVars : Bytes → Option (List J))
+    (readNpz : EndRec → Bytes → Option D) (nvarsOf : D → Nat) (hdrText npz v : Bytes) (labelled : Bool) (h : H)
+    (hh : HeaderOK parse hdrText (labelled, h)) (hsz : npz.length < 256 ^ 4) (hmagic : npz.take 4 = sigLocal)
+    (hv : ∀ i, ¬ SigAt v i) (hlen : eocdWindow ≤ v.length) :
+    dqmLoad true parse parseVars readNpz nvarsOf
+      (makeHeader dqmPrefix 1 1 hdrText ++ (magBIAS ++ (toLE 4 npz.length ++ (npz ++ v)))) = .err .zip :=
+  dqmLoad_whole_long_tail parse parseVars readNpz nvarsOf hdrText npz v labelled h hh hsz hmagic hv hlen
+
+/-- **with the repair** (`np.load(io.BytesIO(file_like.read(length)))`: the archive is looked for at the end of
+    the blob) the complete file loads whatever the length of the `VARS` section: header, `BIAS` frame, the
+    end record of the blob `x ++ e` found by the modelled `_EndRecData`, the directory reader on the complete
+    blob (the contract), `VARS`. -/
+theorem dqm_blob_loader_roundtrip (parse : Bytes → Option (Bool × H)) (parseVars : Bytes → Option (List J))
+    (readNpz : EndRec → Bytes → Option D) (nvarsOf : D → Nat) (hdrText x e varsText : Bytes) (labelled : Bool) (h : H) (d : D)
+    (labels : List J) (hh : HeaderOK parse hdrText (labelled, h)) (hsz : (x ++ e).length < 256 ^ 4) (hmagic : (x ++ e).take 4 = sigLocal)
+    (hlen : e.length = 22) (hsig : e.take 4 = sigEOCD) (hz : e.drop 20 = [0, 0])
+    (hdir : (EndRec.mk x.length e).sizeCd ≤ x.length) (hread : readNpz ⟨x.length, e⟩ (x ++ e) = some d)
+    (hv : labelled = true → VarsOK parseVars varsText labels ∧ labels.length = nvarsOf d) :
+    dqmLoad false parse parseVars readNpz nvarsOf (dqmEncode hdrText labelled (x ++ e) varsText) =
+      .ok (h, d, if labelled then some labels else none) :=
+  dqmLoad_blob_full parse parseVars readNpz nvarsOf hdrText x e varsText labelled h d labels hh hsz hmagic hlen hsig hz hdir hread hv
+
+/-- the end record `zipfile` writes has the shape the search accepts, and its fields read back -/
+theorem eocd_record_wellformed (count sizeCd offsetCd loc : Nat) (h1 : sizeCd < 256 ^ 4) (h2 : offsetCd < 256 ^ 4) (h3 : count < 256 ^ 2) :
+    (eocdRecord count sizeCd offsetCd).length = 22 ∧ (eocdRecord count sizeCd offsetCd).take 4 = sigEOCD ∧
+    (eocdRecord count sizeCd offsetCd).drop 20 = [0, 0] ∧
+    (EndRec.mk loc (eocdRecord count sizeCd offsetCd)).sizeCd = sizeCd ∧
+    (EndRec.mk loc (eocdRecord count sizeCd offsetCd)).offsetCd = offsetCd ∧
+    (EndRec.mk loc (eocdRecord count sizeCd offsetCd)).entries = count := by
+  obtain ⟨a, b, c⟩ := eocdRecord_shape count sizeCd offsetCd
+  obtain ⟨d, e, f⟩ := eocdRecord_fields count sizeCd offsetCd loc h1 h2 h3
+  exact ⟨a, b, c, d, e, f⟩
+
+/-- non-vacuity: a 24-byte "archive" (two bytes, then the end record of an empty archive) is found, and
+    not in its 23-byte prefix -/
+example : endRecData ([1, 2] ++ eocdRecord 0 0 0) = some ⟨2, eocdRecord 0 0 0⟩ ∧
+    endRecData (([1, 2] ++ eocdRecord 0 0 0).take 23) = none := by decide
 
 /-! ## non-vacuity: the hypotheses are satisfiable (the driver's JSON oracle, a one-variable model) -/
 
